@@ -1043,6 +1043,41 @@ def _c11_read(p):
             pass
 
 
+def _c11_obs(p, orig_rows):
+    """What is on disk after the (killed) flow, file by file, read from copies so that nothing is changed: the database file
+    alone, the database with its write-ahead log, the backup and the backup's temporary name.  Each is 'absent', 'orig'
+    (the original pages), 'new' (a valid pages table with other content) or 'partial' (anything else)."""
+    import shutil
+    import sqlite3
+    import tempfile
+
+    def classify(files, main):
+        if not os.path.exists(main):
+            return "absent"
+        d = tempfile.mkdtemp(prefix="c11obs_")
+        try:
+            for f in files:
+                if os.path.exists(f):
+                    shutil.copy(f, os.path.join(d, os.path.basename(f)))
+            try:
+                conn = sqlite3.connect(os.path.join(d, os.path.basename(main)))
+                rows = sorted((t, (b or "")[:12]) for t, b in conn.execute("SELECT title, body FROM pages"))
+                ok = [r[0] for r in conn.execute("PRAGMA integrity_check")] == ["ok"]
+                conn.close()
+            except Exception:  # noqa
+                return "partial"
+            if not ok:
+                return "partial"
+            return "orig" if rows == orig_rows else "new"
+        finally:
+            shutil.rmtree(d, ignore_errors=True)
+
+    stem, ext = os.path.splitext(p)
+    bak = stem + "_backup" + ext
+    return {"db": classify([p], p), "vis": classify([p, p + "-wal", p + "-shm"], p), "bak": classify([bak], bak),
+            "tmp": classify([bak + ".tmp"], bak + ".tmp")}
+
+
 def _c11_child(flow, p, k, extra):
     import subprocess
     import sys as _sys
@@ -1117,11 +1152,13 @@ def impl_c11(case, scratch):
             # after the killed backup: new content, then a complete backup + overwrite + close
             pre.append(_c11_child("mid-override", p, 10 ** 9, extra)[0])
         files = sorted(os.listdir(d))
+        pad = "x" * 3000 if case.get("big") else ""
+        obs = _c11_obs(p, sorted(("Page %d" % i, (("orig %d " % i) + pad)[:12]) for i in range(n)))
         rc2 = None
         if case.get("second_kill"):
             rc2, _, _ = _c11_child("reopen", p, case["second_kill"], extra)
         res = _c11_read(p)
-        res.update({"outcome": "ok", "rc": rc, "lines": lines, "files": files, "rc2": rc2, "pre": pre, "err": err if rc not in (0, 9) else ""})
+        res.update({"outcome": "ok", "rc": rc, "lines": lines, "files": files, "rc2": rc2, "pre": pre, "err": err if rc not in (0, 9) else "", "obs": obs})
         return res
     finally:
         shutil.rmtree(d, ignore_errors=True)
